@@ -103,15 +103,20 @@ def materialise_budget(root, b, rnd):
         negkey = s['sign'] == 'negate' and b.get('_negkey')
         lines = ['  - name: %s' % s['name'], '    file: %s' % fn,
                  '    format: "%s"' % RC.format_string(s['layout'], 'plain' if negkey else s['sign'])]
+        # YAML has several spellings for a boolean (true / yes / on, false / no / off, in any letter case): settings.yaml is YAML
+        yes = ('true', 'yes', 'on', 'True', 'YES')[(si + len(b['sources']) + len(str(b.get('cur')))) % 5]
+        no = ('false', 'no', 'off', 'False', 'No')[(si + len(b['sources']) + len(str(b.get('mode')))) % 5]
         if negkey:
-            lines.append('    negate_amount: true')
+            lines.append('    negate_amount: ' + yes)
+        elif s['sign'] == 'plain' and (si + len(str(b.get('rules')))) % 4 == 1:
+            lines.append('    negate_amount: ' + no)              # said explicitly: the amounts of this source are NOT negated
         if (si + len(b['sources']) + len(s['layout'])) % 3 == 1:
             # a leftover of the deprecated way to describe a source, next to the format string that replaced it: the format decides
             lines.insert(2, '    type: %s' % ('amex', 'boa', 'csv')[(si + len(s['name'])) % 3])
         if s['dec'] == 'comma':
             lines.append('    decimal_separator: ","')
         if not s['header']:
-            lines.append('    has_header: false')
+            lines.append('    has_header: ' + no)
         if delim != ',':
             # a tab-separated source has two spellings: the keyword tab, or the character itself ("\t" in a double-quoted YAML scalar)
             lines.append('    delimiter: "%s"' % ('\\t' if delim == 'tab' and (si + len(s['name']) + len(b['sources'])) % 2 else delim))
